@@ -161,6 +161,9 @@ def judge_add(ctx, t, ep, r, label):
 def rand_transformation(ns, rnd):
     C = ns.constants
     kw = {p: round(rnd.uniform(-1, 1) * 10 ** rnd.randint(-4, 0), 8) for p in hx.P14}
+    if rnd.random() < 0.2:
+        # whole-number parameters typed as int (a user table), zeros typed as int as in the shipped plate-motion model
+        kw = {p: (rnd.randint(-3, 3) if rnd.random() < 0.5 else v) for p, v in kw.items()}
     ep = datetime.date(rnd.randint(1985, 2025), rnd.randint(1, 12), rnd.randint(1, 28))
     return C.Transformation(rnd.choice(['ITRF2014', 'GDA94', 'X1']), rnd.choice(['ITRF2008', 'GDA2020', 'Y2']), ep, **kw)
 
